@@ -103,6 +103,9 @@ def build_exchange(cfg: dict, pj: Proj, max_concurrent: int = 1):
         # model's units, so that loan amounts finer than the symbol's precision can be expressed
         ex.set_symbol_precision(s, cfg.get("precOverride", {}).get(s, pj.prec(s)))
     pairs = [Pair(p["b"], p["q"]) for p in cfg["pairs"]]
+    # harness knob (DESIGN.md §5 C05): the period of the open-list re-indexing, so that it fires within short histories
+    if cfg.get("reindexEvery") and hasattr(ex._order_mgr._orders, "_reindex_every"):
+        ex._order_mgr._orders._reindex_every = cfg["reindexEvery"]
     return d, ex, pairs
 
 
